@@ -415,6 +415,28 @@ def native_laws(rng, ncases):
             bad.append(("channel permutation changes features", T, C))
         if not np.array_equal(perm[df3["peak_trace_idx"].to_numpy()], df["peak_trace_idx"].to_numpy()):
             bad.append(("channel permutation: peak channel", T, C))
+        # the same spikes cut with another window length (same peak positions, fewer / more samples), right after the batch above and again
+        # after an unrelated batch: a feature table depends on the batch at hand only, not on what was computed before it
+        pk = df["peak_time_idx"].to_numpy()
+        T2 = int(min(T - 1, max(int(pk.max()) + 3, 6)))
+        for variant in ("shorter", "longer"):
+            if variant == "shorter":
+                if T2 >= T or T2 <= int(pk.max()):
+                    continue
+                b0 = a0[:, :T2, :].copy()
+            else:
+                tail = np.repeat(a0[:, -1:, :], 7, axis=1) * np.linspace(0.9, 0.1, 7)[None, :, None]
+                b0 = np.concatenate([a0, tail], axis=1)
+            try:
+                r1 = W.compute_spike_features(b0.copy())
+                tt_ = np.arange(21.0)
+                other = (-50.0 * np.exp(-0.5 * ((tt_ - 9.0) / 1.5) ** 2) + 15.0 * np.exp(-0.5 * ((tt_ - 14.0) / 2.5) ** 2))[None, :, None] * np.array([1.0, 0.5])[None, None, :]
+                W.compute_spike_features(np.repeat(other, 2, axis=0))          # an unrelated batch in between (peak mid-window)
+                r2 = W.compute_spike_features(b0.copy())
+                if not np.allclose(r1.to_numpy(float), r2.to_numpy(float), equal_nan=True):
+                    bad.append(("features of a batch depend on the batch computed before it (same peaks, other window length)", variant, T, b0.shape[1], C))
+            except Exception as e:
+                bad.append(("re-cut batch raised", variant, T, b0.shape[1], repr(e)[:80]))
         # batch independence
         if n > 1:
             df4 = W.compute_spike_features(a0[:1].copy())
